@@ -32,7 +32,7 @@ func specFail(format string, args ...any) { panic(specErr{fmt.Sprintf(format, ar
 
 // view returns a copy of st that shares the heap but discards assumptions.
 func (st *State) view() *State {
-	n := &State{x: st.x, heap: st.heap, regs: st.regs, cells: st.cells, fresh: st.fresh, events: st.events}
+	n := &State{x: st.x, heap: st.heap, regs: st.regs, cells: st.cells, fresh: st.fresh, events: st.events, havocked: st.havocked}
 	n.sink = &[]Term{}
 	return n
 }
@@ -1132,7 +1132,7 @@ func (env *SpecEnv) evalHeld(n *SNode, c *ast.CallExpr, kind string) Val {
 	if !ok {
 		specFail("held: owner must be a pointer")
 	}
-	arr, ref := env.x.lockArr(env.st, pt.Elem(), sel.Sel.Name, owner.T)
+	arr, ref := env.x.guardLoc(env.st, pt.Elem(), owner.T, sel.Sel.Name)
 	w := Select(env.st.hgetPure("L."+arr+".w", SArr(SRef, SBool)), ref)
 	if kind == "wheld" {
 		return TV(w)
